@@ -1,32 +1,56 @@
 """C14 — taxonomy queries agree with the tree: LCA, lineage, clade, rank, aliases (pkg/obitax + ncbitaxdump loader)."""
 import itertools, json, math, os, re, struct, subprocess, tempfile, time
 
-PROPS = ["C14/Props.v"]
+PROPS = ["C14/Props.v", "C14/Props3.v"]
 META = dict(
-    text="46 Rocq theorems (unbounded, by induction on lineages) over an executable model of pkg/obitax and of the row semantics of ncbitaxdump.LoadNCBITaxDump: Path is the parent chain from the taxon "
-         "to the self-looped root without repetition (and returns for every taxon of a well-formed taxonomy); LCA (paths compared from the root end) is the deepest common ancestor-or-self, "
-         "commutative, associative, idempotent; IsSubCladeOf / IsBelongingSubclades / TaxonAtRank / HasRankDefined are membership / first match on that path; merged ids resolve to a present node; "
-         "rows outside the tree (dangling parent) change no answer about the taxa of the tree. The weighted sequence LCA Taxonomy.LCA(seq, threshold) is modelled for EVERY threshold and for three "
-         "arithmetics of rmax (IEEE binary64 = the Go code, exact rationals, 'still 1' for threshold 1.0): the set of possible outcomes is independent of the map iteration order, it is a single outcome "
-         "iff no tie between maximal children passes the threshold (never above 1/2 with exact arithmetic, never at threshold 1.0; a witness at 1/2 is proved and observed on the code), every outcome is "
-         "a walk down the tree along a heaviest clade while (heaviest clade weight / weight of the merged taxa comparable with the current taxon) cumulated >= threshold; at threshold 1.0 it is the LCA "
-         "of the taxa designated by a key of positive count (aliases of one taxon add up, zero counts do not count). Taxon(interface{}) spellings (int, \"n\", \"+n\", first TX:n) designate one taxon; "
-         "IsNameEqual/IsNameMatching on byte strings (regexp = oracle), names.dmp lines parsed field by field. On every run the model is evaluated by vm_compute on the same synthetic NCBI dumps and "
-         "queries that the real loader and methods ran on (every rooted tree up to 5 (quick) / 6 (thorough) nodes x all pairs incl. aliases and unknown ids x all ranks, random trees up to 2000 / 5000 "
-         "nodes, chains, stars, alias chains up to length 5, rows outside the tree, thresholds from 1.5 down to 0.1 run 12-40 times each on fresh sequences: every observed (taxid, rans bit pattern, "
-         "granTotal) must be one the binary64 model allows), a Python oracle on the parent map checks the statement directly (LCA by ancestor-set intersection and depth; descent by clade weights), "
-         "and obigrep -r/-i/--require-rank and obiannotate --with-taxon-at-rank/--add-lca-in are run on built binaries.",
+    text="59 Rocq theorems (unbounded, by induction on lineages) over an executable model of pkg/obitax, of the row semantics of ncbitaxdump.LoadNCBITaxDump and (round 3, Model3/Props3) of the glue "
+         "around them. Props.v: Path is the parent chain from the taxon to the self-looped root without repetition (and returns for every taxon of a well-formed taxonomy); LCA (paths compared "
+         "from the root end) is the deepest common ancestor-or-self, commutative, associative, idempotent; IsSubCladeOf / IsBelongingSubclades / TaxonAtRank / HasRankDefined are membership / first "
+         "match on that path; merged ids resolve to a present node; rows outside the tree (dangling parent) change no answer about the taxa of the tree. The weighted sequence LCA "
+         "Taxonomy.LCA(seq, threshold) is modelled for EVERY threshold and for three arithmetics of rmax (IEEE binary64 = the Go code, exact rationals, 'still 1' for threshold 1.0): the set of "
+         "possible outcomes is independent of the map iteration order, it is a single outcome iff no tie between maximal children passes the threshold (never above 1/2 with exact arithmetic, never "
+         "at threshold 1.0; a witness at 1/2 is proved and observed on the code), every outcome is a walk down the tree along a heaviest clade while (heaviest clade weight / weight of the merged "
+         "taxa comparable with the current taxon) cumulated >= threshold; at threshold 1.0 it is the LCA of the taxa designated by a key of positive count (aliases of one taxon add up, zero counts "
+         "do not count). Taxon(interface{}) spellings (int, \"n\", \"+n\", first TX:n) designate one taxon; IsNameEqual/IsNameMatching on byte strings (regexp = oracle), names.dmp lines parsed "
+         "field by field. Props3.v: the selection obigrep composes from --require-rank / -r TAXID / -r ATTRIBUTE / -i / -v with the nil-neutral predicate combinators keeps exactly the sequences "
+         "whose lineage carries every required rank, meets one clade to restrict to and no clade to ignore (unknown taxid: kept only by -i alone; several -i = every single -i; -v and "
+         "--save-discarded partition the input); IsAValidTaxon with auto-correction rewrites the taxid into one that designates the same taxon directly, is idempotent and changes no selection "
+         "or annotation; the taxon-at-rank annotations (species / genus / family workers, --with-taxon-at-rank) write the first taxon of the lineage carrying the rank with its own name, -1/NA "
+         "otherwise, nothing for an unknown taxid; --taxonomic-path is the lineage root first with each taxon's own name and rank, and its text taxid@name@rank|... reads back (injective when "
+         "no field contains '@' or '|'); the three attribute names of --add-lca-in SLOT are pairwise distinct for every SLOT (SLOT_taxid/_name/_error when SLOT does not contain 'taxid'); the "
+         "name index lists nodes only. On every run the models are evaluated by vm_compute on the same synthetic NCBI dumps and queries that the real loader, methods, worker constructors and "
+         "COMMANDS ran on: every rooted tree up to 5 (quick) / 6 (thorough) nodes x all pairs incl. aliases and unknown ids x all ranks, random trees up to 2000 / 5000 nodes, chains, stars, "
+         "alias chains up to length 5, rows outside the tree, names rows for ids that are no node, thresholds from 1.5 down to 0.1 run 12-40 times each on fresh sequences (every observed "
+         "(taxid, rans bit pattern, granTotal) must be one the binary64 model allows); HISTORIES of 10-18 operations on ONE taxonomy object and one persistent sequence already carrying stale "
+         "annotations (Path / LCA / TaxonAtRank / Species / Genus / Family / Rank interleaved with weighted LCAs, every sequence worker, AddLCAWorker with slot names containing 'taxid', "
+         "IsAValidTaxon with and without auto-correction, Index, AddNewTaxa without replacement, LCA with a nil taxon), each operation judged as a pure function of the dump, and all pair / path "
+         "queries repeated after everything else; the dump files as TEXT (comment lines, CRLF, blank lines, blanks for tabs, no final newline, text in unused columns, names lines of 4095..16000 "
+         "bytes: same answers; non-numeric / overflowing taxids, short rows, quotes, rows with another number of columns, missing files: a loud failure, never a silently shorter taxonomy). A "
+         "Python oracle on the parent map checks the statement directly (LCA by ancestor-set intersection and depth; descent by clade weights). obigrep (-r / -i with 1-3 nested and disjoint "
+         "clades, -r ATTRIBUTE alone and mixed, several --require-rank, all three kinds together, -v, --save-discarded, stdin, two input files, --force-one-cpu, --max-cpu 1 with small batches, "
+         "--no-order; no -t, unreadable -t, unknown clade, unknown rank must exit non-zero) and obiannotate (--with-taxon-at-rank once and twice, --add-lca-in with --lca-error and slot names "
+         "containing 'taxid', --taxonomic-path / --taxonomic-rank / --scientific-name, annotation restricted by -r, stdin, an unknown taxid must exit non-zero) are run on built binaries; the "
+         "selections of the commands are also compared with Model3.grep_sel inside Coq.",
     note="Hypothesis wf_tax (one self-looped root, parents present, every node reaches the root) is decided by the proved-sound wf_check on every generated taxonomy and compared with the generator's "
          "own verdict; the loader checks none of it (observation: a parent cycle makes Path loop forever). Rank labels are abstracted to codes. The tree-level characterisation of the descent is generic in the arithmetic under the "
          "hypotheses 'a null share fails the test on reachable scores' (threshold > 0), discharged for exact rationals (any positive threshold) and for threshold 1.0, NOT for binary64; the statement 'no tie passes above 1/2' is proved for exact rationals only - for binary64 it is observed (single outcome over repeated "
-         "runs), not proved. Regexp matching is an oracle (a table of Python re verdicts on RE2-compatible patterns in the correspondence). Thresholds <= 0 never return (observation). CLI level is "
-         "checked against the oracle only. Fixed in round 2: TaxonomicDistribution overwrote the weights of aliases of one taxon; ReindexParent stopped at the first dangling parent; SetTaxonAtRank "
-         "dereferenced a missing scientific name. Round 1: AddNewName dropped the first alternate name.")
+         "runs), not proved. Regexp matching is an oracle (a table of Python re verdicts on RE2-compatible patterns in the correspondence). Thresholds <= 0 never return (observation). The model has no "
+         "state: 'a history leaves nothing behind' is checked by observation (every operation of a history and the second pass must equal the pure functions), not proved about the Go heap. The text of "
+         "taxonomic_path is split on '|' and '@' by the Python renderer (names of the generator contain neither) and the decimal spelling of taxids is Python's. Not exercised, because outside the "
+         "property (they are C16's: obigrep / obiannotate act on each record as their options say): in obigrep/options.go the size / count / predicate / pattern / id / attribute selections and the "
+         "paired-read modes; in obiannotate.go the delete / keep / rename / set-tag / clear / cut / pattern / length workers and their branches of CLIAnnotationWorker. Not exercised: "
+         "obitax.MakeTaxName (no caller, result without exported field). Outside the property (observations in known_findings.d): the error text of Taxonomy.Taxon (%d on a string), the spelling "
+         "'scienctific_name' of the attribute written by --scientific-name (either spelling accepted, value checked), SetTaxid turning a resolved taxid 0 into 1 (no taxon 0 in NCBI; hypothesis 1 <= x "
+         "of C14_autocorrect_preserves_every_answer). Fixed in round 3: the loader stopped silently at the first nodes.dmp / merged.dmp line the csv reader could not parse (a quote, another number of "
+         "columns) and at the first names.dmp line longer than 4096 bytes. Fixed in round 2: TaxonomicDistribution overwrote the weights of aliases of one taxon; ReindexParent stopped at the first "
+         "dangling parent; SetTaxonAtRank dereferenced a missing scientific name. Round 1: AddNewName dropped the first alternate name.")
 TRUSTED = ["float64 arithmetic of Go (float64(int) exact below 2^53, /, *, >= round-to-nearest-even) = Coq.Floats.SpecFloat binary64 (SFdiv, SFmul, SFleb, binary_normalize); compared bit for bit on every run",
            "Go map iteration order is modelled as an arbitrary choice: wld_all collects the outcomes of every choice among maximal keys; C14_wlcad_outcomes_order_independent shows nothing else depends on it",
            "regexp.MatchString is an oracle (Section-style parameter rm of name_matching); the fixed pattern TX:(\\d+) of Taxonomy.Taxon is transcribed as find_tx (leftmost match, greedy digits)",
-           "encoding/csv + bufio line splitting of nodes.dmp / merged.dmp (rows are modelled as already parsed); names.dmp lines: strings.Split / TrimSpace transcribed for ASCII blanks (parse_name_line)",
-           "strconv.Atoi transcribed as atoi (optional sign, decimal digits, int64 range; on a range error the value MaxInt64 is kept by Taxon)"]
+           "encoding/csv + bufio line splitting of nodes.dmp / merged.dmp (rows are modelled as already parsed; the text-level behaviour is judged by the oracle on literal files); names.dmp lines: strings.Split / TrimSpace transcribed for ASCII blanks (parse_name_line)",
+           "strconv.Atoi transcribed as atoi (optional sign, decimal digits, int64 range; on a range error the value MaxInt64 is kept by Taxon)",
+           "strings.HasSuffix / strings.Replace(.., 1) transcribed as has_suffix / find1 + replace1 (first occurrence, byte strings); fmt %d of a taxid = Python str() in the renderer",
+           "getoptions parsing of the command lines and the fasta/JSON header reader-writer of the commands (the CLI observations are the records printed and their annotations); math.Round((1-rans)*1000)/1000 of the error attribute is recomputed in Python, not modelled"]
 
 RANKS = ["no rank", "species", "genus", "family", "order", "class", "kingdom"]
 IMPORTS = "From Coq Require Import NArith ZArith List Floats.SpecFloat. Import ListNotations.\nFrom OBI.C14 Require Import Model.\nOpen Scope N_scope."
@@ -249,8 +273,8 @@ def expected_seq(T, s):
     if s.get("merged") is not None or s.get("taxid") is not None:
         m = s["merged"] if s.get("merged") is not None else {str(s["taxid"]): 1}
         taxa = [(T.resolve(int(k)), w) for k, w in m.items()]
-        if any(t is None for t, _ in taxa):
-            r["wlca"] = r["lcaattr"] = -3          # Taxon() fails: TaxonomicDistribution panics (unknown taxid in the merged set)
+        if any(t is None or T.anc(t) is None for t, _ in taxa):
+            r["wlca"] = r["lcaattr"] = -3          # Taxon() fails: TaxonomicDistribution panics (unknown taxid in the merged set); a lineage that does not reach the root: LCA panics
         else:
             pos = [t for t, w in taxa if w > 0]
             if pos:
@@ -332,7 +356,317 @@ def compare(case, obs, exp):
     for k in ("pairs", "paths", "ranks", "sets", "resolve", "namesq", "seqs"):
         if len(obs.get(k) or []) != len(exp[k]):
             bad.append((k + ".len", 0, len(obs.get(k) or []), len(exp[k])))
+    if case.get("hist"):
+        bad += hist_check(case, obs.get("hist"))
+    if case.get("again"):
+        # the same queries after the weighted LCAs, the workers and the history: a pure function of the dump
+        for k in ("pairs", "paths"):
+            o2 = obs.get(k + "2") or []
+            if len(o2) != len(exp[k]):
+                bad.append((k + "2.len", 0, len(o2), len(exp[k])))
+            for i, (o, x) in enumerate(zip(o2, exp[k])):
+                if o != x and x != "*":
+                    bad.append((k + "2", i, o, x))
     return bad
+
+
+# ------------------------------------------------------------------ round 3: histories of operations on one taxonomy object
+SCI_KEYS = ("scientific_name", "scienctific_name")      # SetScientificName writes the second spelling; either is accepted
+
+
+def lca_keys(slot):
+    """attribute names written by AddLCAWorker(slot): taxid, name, error"""
+    s = slot if slot.endswith("taxid") else slot + "_taxid"
+    e = s.replace("taxid", "error", 1)
+    n = s.replace("taxid", "name", 1)
+    return s, ("scientific_name" if n == "name" else n), ("lca_error" if e == "error" else e)
+
+
+def seq_attrs0(s, extra):
+    """attributes of the sequence the harness builds from a description (c14mkseq) + extra attributes"""
+    a = {}
+    s = s or {}
+    if s.get("taxid") is not None:
+        a["taxid"] = s["taxid"]
+    if s.get("merged") is not None:
+        a["merged_taxid"] = dict(s["merged"])
+    if s.get("slotstr") is not None:
+        a["clade"] = s["slotstr"]
+    elif s.get("slot") is not None:
+        a["clade"] = str(s["slot"])
+    a.update(extra or {})
+    return a
+
+
+def attrs_dist(a):
+    """what TaxonomicDistribution reads: merged_taxid, else {taxid: 1}, else {"na": 1} (Atoi("na") = 0); second value: the
+    merged_taxid attribute StatsOn creates as a side effect (None: none)"""
+    if isinstance(a.get("merged_taxid"), dict):
+        return {k: v for k, v in a["merged_taxid"].items()}, None
+    m = {str(a["taxid"]): 1} if a.get("taxid") is not None else {"na": 1}
+    return m, m
+
+
+def atoi0(k):
+    return int(k) if re.fullmatch(r"[+-]?\d+", k) else 0
+
+
+def path_string(T, x):
+    return "|".join("%d@%s@%s" % (w, T.sci.get(w, ""), T.nodes[w][1]) for w in reversed(T.anc(x)))
+
+
+def rank_updates(T, tid, ranks):
+    """SetTaxonAtRank for each rank: attributes written (nothing when the taxid is unknown); "fatal" in the result when the walk up
+    the tree meets a missing parent (a row outside the tree) before it finds the rank: the worker stops there"""
+    x = T.resolve(tid)
+    upd = {}
+    if x is None:
+        return upd
+    for rk in ranks:
+        cur = x
+        while True:
+            if T.nodes[cur][1] == rk:
+                w = cur
+                break
+            par = T.nodes[cur][0]
+            if par == cur:
+                w = None
+                break
+            if par not in T.nodes:
+                upd["fatal"] = True
+                return upd
+            cur = par
+        upd[rk + "_taxid"] = -1 if w is None else w
+        upd[rk + "_name"] = "NA" if w is None else T.sci.get(w, "")
+    return upd
+
+
+def hist_check(case, ohist, befores=None):
+    """every operation of the history judged as a pure function of the dump and of the attributes the sequence carried
+    (befores: filled with the attributes the sequence of each operation carried before it, None for the other operations)"""
+    T = Tax(case)
+    bad = []
+    named = {}
+    befores = befores if befores is not None else []
+    if len(ohist or []) != len(case["hist"]):
+        return [("hist.len", 0, len(ohist or []), len(case["hist"]))]
+    for i, (op, o) in enumerate(zip(case["hist"], ohist)):
+        k = op["op"]
+
+        def fail(exp):
+            bad.append(("hist." + k, i, o, exp))
+        on = op.get("on") or None
+        before = None
+        if k in ("new", "wlca", "valid") or k.startswith("w_"):
+            before = named[on] if on in named else seq_attrs0(op.get("seq"), op.get("attrs"))
+            before = json.loads(json.dumps(before))
+        tid = (before or {}).get("taxid", 1)
+        befores.append(before)
+
+        def effect(upd, fatal=False, side=None):
+            """the worker must leave exactly before + upd (+ the merged_taxid StatsOn creates)"""
+            want = dict(before)
+            if side:
+                want["merged_taxid"] = side
+            want.update(upd or {})
+            if fatal:
+                if not o.get("fatal"):
+                    fail(dict(fatal=1))
+            elif o.get("fatal") or o.get("err") or o.get("panic") or o.get("attrs") != want:
+                fail(dict(attrs=want))
+        if k == "new":
+            if o.get("ok") != 1:
+                fail(dict(ok=1))
+        elif k == "path":
+            x = T.resolve(op["a"])
+            exp = None if x is None else T.anc(x)
+            if x is not None and exp is None:
+                continue
+            if o.get("p", "missing") != exp:
+                fail(dict(p=exp))
+        elif k == "lca":
+            x, y = T.resolve(op["a"]), T.resolve(op["b"])
+            if x is None or y is None:
+                exp = dict(lca=-1, sub=-1)
+            elif T.anc(x) is None or T.anc(y) is None:
+                continue
+            else:
+                exp = dict(lca=T.lca(x, y), sub=int(y in T.anc(x)))
+            if o != exp:
+                fail(exp)
+        elif k in ("rank", "species", "genus", "family"):
+            rk = op.get("rank") if k == "rank" else k
+            x = T.resolve(op["a"])
+            if x is None:
+                exp = dict(at=-1, nil=0, has=-1)
+            elif T.anc(x) is None:
+                continue
+            else:
+                w = T.at_rank(x, rk)
+                exp = dict(at=0 if w is None else w, nil=int(w is None), has=int(w is not None))
+            if o != exp:
+                fail(exp)
+        elif k == "noderank":
+            x = T.resolve(op["a"])
+            exp = dict(r=None) if x is None else dict(r=T.nodes[x][1], sn=T.sci.get(x, ""))
+            if o != exp:
+                fail(exp)
+        elif k == "nillca":
+            exp = dict(lca=-1) if T.resolve(op["a"]) is None else dict(lca=-3, lca2=-3)       # a nil taxon is refused loudly, never answered
+            if o != exp:
+                fail(exp)
+        elif k == "index":
+            exp = sorted({r[0] for r in case["names"] if r[1].strip() == op["name"] and r[0] in T.nodes and
+                          (not case.get("onlysn") or r[2].strip() == "scientific name")})
+            if o.get("ids") != exp:
+                fail(dict(ids=exp))
+        elif k == "addtaxa":
+            exp = dict(err=1, nil=1, dlen=0)
+            if o != exp:
+                fail(exp)
+        elif k == "valid":
+            x = T.resolve(tid)
+            want = dict(before)
+            if x is not None and op.get("auto") and x != tid:
+                want["taxid"] = x
+            exp = dict(ok=int(x is not None), again=int(x is not None), attrs=want)
+            if o != exp:
+                fail(exp)
+        elif k in ("wlca", "w_lca"):
+            m, side = attrs_dist(before)
+            taxa = [(T.resolve(atoi0(kk)), w) for kk, w in m.items()]
+            if any(t is None or T.anc(t) is None for t, _ in taxa):
+                if k == "wlca":
+                    if o.get("t") != -3:
+                        fail(dict(t=-3))
+                else:
+                    effect(None, fatal=True)
+            else:
+                dist = {}
+                for t, w in taxa:
+                    dist[t] = dist.get(t, 0) + w
+                g = sum(dist.values())
+                allowed = descent(T, dist, op["thr"])
+                if k == "wlca":
+                    got = (o.get("t"), int(o["b"]) if o.get("b") else 0, o.get("g"))
+                    if got not in {(t, b, g) for t, b in allowed}:
+                        fail(sorted((t, b, g) for t, b in allowed))
+                elif any(t == -4 for t, _ in allowed):
+                    effect(None, fatal=True)                       # no taxon at all: lca.Taxid() on nil
+                else:
+                    kt, kn, ke = lca_keys(op["slot"])
+                    okw = False
+                    a = o.get("attrs") or {}
+                    for t, b in allowed:
+                        rans = struct.unpack(">d", struct.pack(">Q", b))[0]
+                        want = dict(before)
+                        if side:
+                            want["merged_taxid"] = side
+                        want.update({kt: t, kn: T.sci.get(t, "")})
+                        try:
+                            ev = float(a.get(ke))
+                        except (TypeError, ValueError):
+                            continue
+                        rest = {kk: v for kk, v in a.items() if kk != ke}
+                        want.pop(ke, None)
+                        okw = okw or (rest == want and abs(ev - math.floor((1 - rans) * 1000 + 0.5) / 1000) < 1e-12)
+                    if not okw or o.get("fatal") or o.get("err"):
+                        fail(dict(keys=[kt, kn, ke], allowed=sorted(allowed)))
+        elif k in ("w_species", "w_genus", "w_family", "w_atrank", "w_atranks"):
+            ranks = op.get("ranks") if k == "w_atranks" else [op.get("rank") if k == "w_atrank" else k[2:]]
+            if k == "w_atrank" and op["rank"] not in T.ranklist:
+                effect(None, fatal=True)                           # MakeSetTaxonAtRankWorker refuses a rank no taxon carries
+            else:
+                upd = rank_updates(T, tid, ranks)
+                if upd.pop("fatal", False):
+                    effect(None, fatal=True)
+                else:
+                    effect(upd)
+        elif k in ("w_path", "w_sci", "w_trank"):
+            x = T.resolve(tid)
+            if x is None:
+                effect(None, fatal=True)                           # unknown taxid: log.Fatalf
+            elif T.anc(x) is None:
+                if k == "w_path":
+                    effect(None, fatal=True)                       # the lineage does not reach the root: "Taxonomy index error"
+                elif k == "w_trank":
+                    effect(dict(taxonomic_rank=T.nodes[x][1]))
+            elif k == "w_path":
+                effect(dict(taxonomic_path=path_string(T, x)))
+            elif k == "w_trank":
+                effect(dict(taxonomic_rank=T.nodes[x][1]))
+            else:
+                a = o.get("attrs") or {}
+                newk = [kk for kk in SCI_KEYS if kk in a and a.get(kk) != before.get(kk, object())] or [kk for kk in SCI_KEYS if kk in a]
+                effect({newk[0]: T.sci.get(x, "")} if len(newk) >= 1 else {SCI_KEYS[0]: T.sci.get(x, "")})
+        else:
+            fail("unknown operation")
+        if on and before is not None:
+            if isinstance(o.get("attrs"), dict):
+                named[on] = o["attrs"]
+            else:
+                named[on] = before
+                if k == "wlca" and attrs_dist(before)[1]:
+                    named[on] = dict(before, merged_taxid=attrs_dist(before)[1])     # StatsOn stores the table it builds
+    return bad
+
+
+def gen_hist(rng, case, T, ids, olds, unknown, pool, garbage):
+    """a history: plain queries interleaved with weighted LCAs and workers involving the same taxa, one persistent sequence"""
+    qids = ids + olds + unknown
+    ops = []
+    focus = [rng.choice(ids) for _ in range(3)]
+
+    def someseq(known=True):
+        k = rng.choice([1, 2, 2, 3, 4])
+        focus_l = focus + [rng.choice(ids)]
+        m = {str(rng.choice(focus_l + (olds if rng.random() < 0.3 else []))): rng.randrange(1, 5) for _ in range(k)}
+        if not known and rng.random() < 0.5:
+            m[str(rng.choice(unknown + garbage))] = 1
+        r = rng.random()
+        tx = rng.choice(focus_l + olds) if known or rng.random() < 0.5 else rng.choice(unknown + garbage)
+        if r < 0.6:
+            return dict(taxid=tx, merged=m)
+        if r < 0.85:
+            return dict(taxid=tx, merged=None)
+        return dict(taxid=None, merged=m if r < 0.95 else None)
+    thr = lambda: rng.choice([1.0, 1.0, 1.0, 0.8, 0.6, 0.5, 0.3])
+    ranks = pool + ["species", "genus", "family", "absent rank"]
+    slots = ["x", "lca", "taxid", "lca_taxid", "mytaxid", "taxidx", "a_taxid_b", "name", "error", "x_name"]
+    ops.append(dict(op="new", on="P", seq=someseq(), attrs=rng.choice([{}, {"x_taxid": 77, "x_error": 0.5, "x_name": "stale"}, {"species_taxid": 1, "taxonomic_path": "old"}])))
+    for _ in range(rng.randrange(10, 18)):
+        a, b = rng.choice(focus + [rng.choice(qids)]), rng.choice(focus + [rng.choice(qids)])
+        k = rng.choice(["path", "path", "lca", "lca", "rank", "species", "genus", "family", "noderank", "wlca", "wlca", "w_lca", "w_lca", "w_species", "w_genus",
+                        "w_family", "w_path", "w_atrank", "w_atranks", "w_sci", "w_trank", "valid", "valid", "index", "addtaxa", "nillca"])
+        op = dict(op=k)
+        if k in ("path", "noderank", "nillca", "species", "genus", "family"):
+            op["a"] = a
+        elif k == "lca":
+            op["a"], op["b"] = a, b
+        elif k == "rank":
+            op["a"], op["rank"] = a, rng.choice(ranks)
+        elif k == "index":
+            op["name"] = rng.choice([r[1].strip() for r in case["names"]] + ["nobody"])
+        elif k == "addtaxa":
+            op["a"], op["b"], op["rank"] = rng.choice(ids), rng.choice(ids), rng.choice(pool)
+        else:
+            if rng.random() < 0.35:
+                op["on"] = "P"
+            else:
+                op["seq"] = someseq(known=rng.random() < 0.85)
+            if k in ("wlca", "w_lca"):
+                op["thr"] = thr()
+            if k == "w_lca":
+                op["slot"] = rng.choice(slots)
+            if k == "w_atrank":
+                op["rank"] = rng.choice(ranks)
+            if k == "w_atranks":
+                op["ranks"] = [rng.choice(ranks) for _ in range(rng.randrange(1, 4))]
+            if k == "valid":
+                op["auto"] = rng.random() < 0.6
+                op["b"] = rng.randrange(2)
+        ops.append(op)
+    return ops
 
 
 # ------------------------------------------------------------------ generators
@@ -427,6 +761,10 @@ def mk_case(rng, par, kind, nq, exhaustive=False, ranks=None, with_seqs=True, pl
     if not exhaustive and not plain and n >= 3 and rng.random() < 0.15:
         nameless = rng.choice(ids[1:])                       # a taxon without any "scientific name" row
         names = [r for r in names if not (r[0] == nameless and r[2] == "scientific name")]
+    if not exhaustive and rng.random() < 0.3:
+        # round 3: rows of names.dmp for taxids that are no node (unknown id, merged id): they name nobody
+        for t in rng.sample(fresh[:6], 2):
+            names.append([t, rng.choice(["ghost%d" % t, "taxon%d" % rng.choice(ids)]), rng.choice(["scientific name", "synonym"]), "", rng.choice([0, 1, 2])])
     rng.shuffle(names)
     garbage = []
     if not exhaustive and not plain and n >= 3 and rng.random() < 0.15:
@@ -491,6 +829,12 @@ def mk_case(rng, par, kind, nq, exhaustive=False, ranks=None, with_seqs=True, pl
                 s["restrict"] = [rng.choice(ids + olds) for _ in range(rng.randrange(1, 3))]
             if rng.random() < 0.6:
                 s["ignore"] = [rng.choice(ids + olds) for _ in range(rng.randrange(1, 3))]
+            if rng.random() < 0.25:
+                # round 3: three clades, two of them nested (a taxon and one of its ancestors), the third anywhere
+                a = rng.choice(ids)
+                tri = [a, rng.choice(T.anc(a)), rng.choice(ids + olds)]
+                rng.shuffle(tri)
+                s[rng.choice(["ignore", "restrict"])] = tri
             if rng.random() < 0.1:
                 (s.setdefault("restrict", [])).append(unknown[0])
             if rng.random() < 0.7:
@@ -523,6 +867,8 @@ def mk_case(rng, par, kind, nq, exhaustive=False, ranks=None, with_seqs=True, pl
                     m[str(rng.choice(ids))] = 0                            # a taxon of weight 0 does not count
                 elif r < 0.30:
                     m[str(unknown[0])] = 1                                 # unknown taxid: panic
+                elif r < 0.40 and garbage:
+                    m[str(rng.choice(garbage))] = 1                        # round 3: a taxid whose lineage does not reach the root: panic
                 r = rng.random()
                 if olds and r < 0.25:
                     # round 2: several ids of ONE taxon (aliases and/or the taxon itself) in the same merged set: their weights add up
@@ -544,6 +890,9 @@ def mk_case(rng, par, kind, nq, exhaustive=False, ranks=None, with_seqs=True, pl
                 else:
                     s["thr"], s["reps"] = [1.0, rng.choice([0.5, 0.7])], 3
             case["seqs"].append(s)
+        if n <= 60 and (not exhaustive or rng.random() < 0.15):
+            case["hist"] = gen_hist(rng, case, T, ids, olds, unknown, pool, garbage)
+        case["again"] = n <= 60
     return case
 
 
@@ -596,6 +945,29 @@ CORPUS += [
          seqs=[dict(taxid=5, merged={"5": 1, "6": 1}, restrict=[3], atrank=["genus", "species"], thr=[1.0], reps=3),
                dict(taxid=6, merged=None, atrank=["species", "family"])]),
 ]
+# round 3: hand-written histories.  (a) the scenario of a lineage memoised and reversed in place: weighted LCAs, then the plain queries on the
+# same taxa, then weighted LCAs again; one persistent sequence that already carries the annotations of a previous run.  (b) rows outside the tree:
+# the workers that need the lineage stop, the others answer.
+CORPUS[3]["again"] = True
+CORPUS[3]["hist"] = [
+    dict(op="path", a=5), dict(op="wlca", seq=dict(taxid=None, merged={"5": 1, "8": 1}), thr=1.0), dict(op="path", a=5), dict(op="path", a=8), dict(op="lca", a=5, b=8),
+    dict(op="wlca", seq=dict(taxid=None, merged={"5": 1, "6": 1}), thr=1.0), dict(op="wlca", seq=dict(taxid=None, merged={"5": 1, "6": 1}), thr=1.0), dict(op="wlca", seq=dict(taxid=None, merged={"6": 2}), thr=1.0),
+    dict(op="species", a=6), dict(op="genus", a=6), dict(op="family", a=6), dict(op="family", a=2), dict(op="rank", a=94, rank="genus"), dict(op="noderank", a=98), dict(op="noderank", a=1234),
+    dict(op="new", on="P", seq=dict(taxid=98, merged=None), attrs={"lca_taxid": 1, "lca_name": "stale", "lca_error": 0.25, "species_taxid": 5, "genus_name": "old", "taxonomic_path": "1@x@y", "taxonomic_rank": "zz"}),
+    dict(op="w_lca", on="P", slot="lca", thr=1.0), dict(op="valid", on="P", auto=False, b=1), dict(op="valid", on="P", auto=True), dict(op="valid", on="P", auto=True),
+    dict(op="w_lca", on="P", slot="lca", thr=1.0), dict(op="w_species", on="P"), dict(op="w_genus", on="P"), dict(op="w_family", on="P"), dict(op="w_path", on="P"), dict(op="w_trank", on="P"), dict(op="w_sci", on="P"),
+    dict(op="w_atranks", on="P", ranks=["kingdom", "genus", "order"]), dict(op="w_atrank", on="P", rank="order"), dict(op="w_atrank", on="P", rank="kingdom"),
+    dict(op="w_lca", seq=dict(taxid=5, merged={"5": 1, "6": 1, "8": 2}), slot="taxid", thr=0.75), dict(op="w_lca", seq=dict(taxid=5, merged={"5": 3, "6": 1}), slot="taxidtaxid", thr=0.7),
+    dict(op="w_lca", seq=dict(taxid=5, merged={"5": 1, "1234": 1}), slot="x", thr=1.0), dict(op="w_path", seq=dict(taxid=1234, merged=None)), dict(op="w_sci", seq=dict(taxid=1234, merged=None)),
+    dict(op="w_trank", seq=dict(taxid=None, merged=None)), dict(op="w_species", seq=dict(taxid=1234, merged=None)), dict(op="valid", seq=dict(taxid=1234, merged=None), auto=True),
+    dict(op="index", name="Homo sapiens"), dict(op="index", name="taxon8"), dict(op="index", name="only synonym"), dict(op="index", name="nobody"),
+    dict(op="addtaxa", a=5, b=1, rank="species"), dict(op="nillca", a=5), dict(op="nillca", a=1234), dict(op="path", a=5), dict(op="lca", a=6, b=5), dict(op="path", a=94)]
+CORPUS[4]["again"] = True
+CORPUS[4]["hist"] = [
+    dict(op="w_path", seq=dict(taxid=50, merged=None)), dict(op="w_path", seq=dict(taxid=51, merged=None)), dict(op="w_trank", seq=dict(taxid=51, merged=None)), dict(op="w_sci", seq=dict(taxid=50, merged=None)),
+    dict(op="wlca", seq=dict(taxid=None, merged={"50": 1, "5": 1}), thr=1.0), dict(op="w_lca", seq=dict(taxid=None, merged={"5": 1, "51": 1}), slot="x", thr=1.0), dict(op="path", a=5),
+    dict(op="w_path", seq=dict(taxid=6, merged=None)), dict(op="w_sci", seq=dict(taxid=6, merged=None)), dict(op="w_genus", seq=dict(taxid=6, merged=None)), dict(op="w_species", seq=dict(taxid=4, merged=None)),
+    dict(op="index", name="just a synonym"), dict(op="index", name="taxon50"), dict(op="noderank", a=6), dict(op="lca", a=5, b=8)]
 for c in CORPUS:
     for k in ("pairs", "paths", "ranks", "sets", "resolve", "namesq", "seqs"):
         c.setdefault(k, [])
@@ -646,9 +1018,19 @@ def bl(x):
 
 
 FTAB = {}
+SEQTAB = {}
+
+
+def sq(term):
+    """sequence term -> name of a constant defined once per generated file"""
+    return SEQTAB.setdefault(term, "sq%d" % len(SEQTAB))
 
 
 def strtab_defs():
+    return strtab_defs0() + "".join("Definition %s : seq := %s.\n" % (k, x) for x, k in SEQTAB.items())
+
+
+def strtab_defs0():
     return "".join("Definition %s : spec_float := %s.\n" % (k, x) for x, k in FTAB.items()) + \
         "".join("Definition %s : list N := [%s].\n" % (k, ";".join(str(c) for c in x.encode("utf8"))) for x, k in STRTAB.items())
 
@@ -696,9 +1078,16 @@ def case_term(case, obs):
         return rc.setdefault(r, len(rc))
     nodes = "[" + "; ".join("(%d,%d,%d)" % (t, p, rcode(r)) for t, p, r in case["nodes"]) + "]"
     merged = "[" + "; ".join("(%d,%d)" % (o, n) for o, n in case["merged"]) + "]"
-    pairs = "[" + "; ".join("(%d,%d,(%d)%%Z,(%d)%%Z)" % (a, b, o["lca"], o["sub"]) for (a, b), o in zip(case["pairs"], obs["pairs"] or [])) + "]"
-    paths = "[" + "; ".join("(%d,%s)" % (a, zl([-1] if o is None else o)) for a, o in zip(case["paths"], obs["paths"] or [])) + "]"
-    ranks = "[" + "; ".join("(%d,%d,(%d)%%Z,(%d)%%Z,(%d)%%Z)" % (a, rcode(r), o["at"], o["nil"], o["has"]) for (a, r), o in zip(case["ranks"], obs["ranks"] or [])) + "]"
+    # round 3: the queries made in the middle of a history and the second pass are answered by the same pure functions
+    xp = [((op["a"], op["b"]), o) for op, o in zip(case.get("hist") or [], obs.get("hist") or []) if op["op"] == "lca" and "lca" in o]
+    xq = [(op["a"], o.get("p")) for op, o in zip(case.get("hist") or [], obs.get("hist") or []) if op["op"] == "path" and "p" in o]
+    xr = [((op["a"], op.get("rank") if op["op"] == "rank" else op["op"]), o) for op, o in zip(case.get("hist") or [], obs.get("hist") or [])
+          if op["op"] in ("rank", "species", "genus", "family") and "at" in o]
+    again_p = list(zip(case["pairs"], obs.get("pairs2") or [])) if case.get("again") else []
+    again_q = list(zip(case["paths"], obs.get("paths2") or [])) if case.get("again") else []
+    pairs = "[" + "; ".join("(%d,%d,(%d)%%Z,(%d)%%Z)" % (a, b, o["lca"], o["sub"]) for (a, b), o in list(zip(case["pairs"], obs["pairs"] or [])) + xp + again_p) + "]"
+    paths = "[" + "; ".join("(%d,%s)" % (a, zl([-1] if o is None else o)) for a, o in list(zip(case["paths"], obs["paths"] or [])) + xq + again_q) + "]"
+    ranks = "[" + "; ".join("(%d,%d,(%d)%%Z,(%d)%%Z,(%d)%%Z)" % (a, rcode(r), o["at"], o["nil"], o["has"]) for (a, r), o in list(zip(case["ranks"], obs["ranks"] or [])) + xr) + "]"
     sets = "[" + "; ".join("(%d,%s,(%d)%%Z)" % (a, nl(ids), o) for (a, ids), o in zip(case["sets"], obs["sets"] or [])) + "]"
     res = "[" + "; ".join("(%d,(%d)%%Z)" % (a, o) for a, o in zip(case["resolve"], obs["resolve"] or [])) + "]"
     seqs = []
@@ -730,6 +1119,160 @@ def case_term(case, obs):
     return "mkcase %s %s (%d)%%Z (%d)%%Z %s %s %s %s %s [%s] %s %s %s %s %s %s %s %s" % (nodes, merged, obs["len"], obs["nalias"], pairs, paths, ranks, sets, res, "; ".join(seqs),
                                                                  "true" if case.get("onlysn") else "false", names, namesq,
                                                                  "true" if TT.wf() else "false", forms, namesm, retab, nparse)
+
+
+# ------------------------------------------------------------------ round 3: Gallina rendering of the glue observations (Model3.mismatches3)
+IMPORTS3 = "From Coq Require Import NArith ZArith List Floats.SpecFloat. Import ListNotations.\nFrom OBI.C14 Require Import Model Model3.\nOpen Scope N_scope."
+
+
+def seq_term3(a):
+    """mkseq for a sequence given by its attributes (taxid, merged_taxid, clade)"""
+    tx = "None" if a.get("taxid") is None else "(Some %d)" % a["taxid"]
+    m = a.get("merged_taxid")
+    if isinstance(m, dict) and all(re.fullmatch(r"\d+", k) for k in m):
+        mg = "(Some [" + "; ".join("(%d,(%d)%%Z)" % (int(k), w) for k, w in m.items()) + "])"
+    elif isinstance(m, dict):
+        return None
+    else:
+        mg = "None"
+    sl = "None" if a.get("clade") is None else "(Some (FStr %s))" % bl(str(a["clade"]))
+    return sq("(mkseq %s %s [] [] [] [] %s []%%Z [] (-9)%%Z)" % (tx, mg, sl))
+
+
+def parse_path_attr(v, rcode):
+    """taxonomic_path -> [(taxid, name, rank code)] and [(digits, name, rank label)]"""
+    tri, fields = [], []
+    if v == "":
+        return tri, fields
+    for e in v.split("|"):
+        f = e.split("@")
+        if len(f) != 3 or not re.fullmatch(r"\d+", f[0]):
+            return None, None
+        tri.append("((%s)%%Z,%s,%d)" % (f[0], bl(f[1]), rcode(f[2])))
+        fields.append("(%s,%s,%s)" % (bl(f[0]), bl(f[1]), bl(f[2])))
+    return tri, fields
+
+
+XKINDS = {}
+
+
+def xcase_term(case, obs, extra=None):
+    """the round-3 observations of one case as a Model3.xcase (None: nothing to say)"""
+    rc = {}
+
+    def rcode(r):
+        return rc.setdefault(r, len(rc))
+    nodes = "[" + "; ".join("(%d,%d,%d)" % (t, p, rcode(r)) for t, p, r in case["nodes"]) + "]"
+    merged = "[" + "; ".join("(%d,%d)" % (o, n) for o, n in case["merged"]) + "]"
+    names = "[" + "; ".join("(%d,%s,%s)" % (r[0], bl(r[1].strip()), bl(r[2].strip())) for r in case["names"]) + "]"
+    q = list(extra(rcode) if extra else [])
+    befores = []
+    if case.get("hist") and obs.get("hist"):
+        hist_check(case, obs["hist"], befores)
+    for op, o, before in zip(case.get("hist") or [], obs.get("hist") or [], befores):
+        k = op["op"]
+        if o.get("panic") or o.get("err"):
+            continue
+        a = o.get("attrs") if isinstance(o.get("attrs"), dict) else None
+        st = seq_term3(before) if before is not None else None
+        if before is not None and st is None:
+            continue
+        if k == "index" and all(x >= 0 for x in o.get("ids") or []):
+            q.append("XIndex %s %s" % (bl(op["name"]), nl(o.get("ids") or [])))
+        elif k == "valid" and a is not None and isinstance(a.get("taxid", 0), int) and a.get("taxid", 0) >= 0:
+            q.append("XValid %s %s (%d)%%Z (%d)%%Z" % (st, "true" if op.get("auto") else "false", o["ok"], a.get("taxid", -9)))
+        elif k == "wlca" and "t" in o:
+            q.append("XThr %s (%s, [((%d)%%Z, %s, (%d)%%Z)])" % (st, sf(fbits(op["thr"])), o["t"], sf(int(o["b"]) if o.get("b") else 0), o.get("g", 0)))
+        elif k == "w_lca":
+            if o.get("fatal"):
+                q.append("XLcaW %s %s (-3)%%Z" % (st, sf(fbits(op["thr"]))))
+            elif a is not None:
+                newk = [kk for kk in a if kk != "merged_taxid" and (kk not in before or a[kk] != before[kk])]
+                if len(newk) == 3:
+                    kn = [kk for kk in newk if isinstance(a[kk], str)]
+                    ke = [kk for kk in newk if not isinstance(a[kk], str) and a[kk] < 1]
+                    kt = [kk for kk in newk if isinstance(a[kk], int) and a[kk] >= 1]
+                    if len(kn) == len(ke) == len(kt) == 1:
+                        q.append("XKeys %s %s %s %s" % (bl(op["slot"]), bl(kt[0]), bl(kn[0]), bl(ke[0])))
+                        q.append("XLcaW %s %s (%d)%%Z" % (st, sf(fbits(op["thr"])), a[kt[0]]))
+        elif k in ("w_species", "w_genus", "w_family", "w_atrank", "w_atranks"):
+            ranks = op.get("ranks") if k == "w_atranks" else [op.get("rank") if k == "w_atrank" else k[2:]]
+            if any(rk + "_taxid" in before or rk + "_name" in before for rk in ranks) or len(set(ranks)) != len(ranks):
+                continue
+            rs = []
+            for rk in ranks:
+                if a is not None and rk + "_taxid" in a:
+                    rs.append("(%d, Some ((%d)%%Z, %s))" % (rcode(rk), a[rk + "_taxid"], bl(str(a.get(rk + "_name", "?")))))
+                else:
+                    rs.append("(%d, None)" % rcode(rk))
+            q.append("XRanks %s %s [%s] %s" % (st, "true" if k == "w_atrank" else "false", "; ".join(rs), "true" if o.get("fatal") else "false"))
+        elif k == "w_path" and "taxonomic_path" not in before:
+            if o.get("fatal"):
+                q.append("XPath %s None" % st)
+            elif a is not None and isinstance(a.get("taxonomic_path"), str):
+                tri, fields = parse_path_attr(a["taxonomic_path"], rcode)
+                if tri is not None:
+                    q.append("XPath %s (Some [%s])" % (st, "; ".join(tri)))
+                    q.append("XPathStr [%s] %s" % ("; ".join(fields), bl(a["taxonomic_path"])))
+        elif k == "w_sci" and not any(kk in before for kk in SCI_KEYS):
+            if o.get("fatal"):
+                q.append("XSci %s None" % st)
+            elif a is not None:
+                v = [a[kk] for kk in SCI_KEYS if kk in a]
+                if len(v) == 1 and isinstance(v[0], str):
+                    q.append("XSci %s (Some %s)" % (st, bl(v[0])))
+        elif k == "w_trank" and "taxonomic_rank" not in before:
+            if o.get("fatal"):
+                q.append("XTrank %s None" % st)
+            elif a is not None and isinstance(a.get("taxonomic_rank"), str):
+                q.append("XTrank %s (Some %d)" % (st, rcode(a["taxonomic_rank"])))
+    if not q:
+        return None
+    for x in q:
+        XKINDS[x.split()[0]] = XKINDS.get(x.split()[0], 0) + 1
+    return "mkx %s %s %s %s [%s]" % (nodes, merged, "true" if case.get("onlysn") else "false", names, ";\n ".join(q))
+
+
+def evaluate_ext(ctx, pairs, broken, label):
+    """correspondence of the round-3 observations: pairs = [(case, observation, extra-queries function | None)]"""
+    t0 = time.time()
+    jobs = []
+    todo = [(i, c, o, x) for i, (c, o, x) in enumerate(pairs) if o.get("kind") == "ok" and c["n"] <= 60 and (c.get("hist") or x)]
+    shard = 20
+    for k in range(0, len(todo), shard):
+        chunk = todo[k:k + shard]
+        STRTAB.clear()
+        FTAB.clear()
+        SEQTAB.clear()
+        terms, idx = [], []
+        for i, c, o, x in chunk:
+            t = xcase_term(c, o, x)
+            if t is not None:
+                terms.append(t)
+                idx.append(i)
+        if terms:
+            jobs.append((idx, "%s_x%d" % (label, k // shard), IMPORTS3 + "\n" + strtab_defs(), terms))
+
+    def one(job):
+        idx, nm, imports, terms = job
+        for attempt in range(3):
+            bad, err = ctx.correspond(nm, imports, terms, fn="mismatches3", shard=len(terms))
+            if bad is not None or not any(w in (err or "") for w in ("Terminated", "Killed")):
+                break
+        return idx, bad, err
+    from concurrent.futures import ThreadPoolExecutor
+    with ThreadPoolExecutor(max_workers=8) as ex:
+        results = list(ex.map(one, jobs))
+    mism = []
+    nq = 0
+    for idx, bad, err in results:
+        if bad is None:
+            broken.append(dict(kind="correspondence", detail=err))
+        else:
+            mism += [idx[i] for i in bad]
+    ctx.cov["coq_eval_ext_s"] = round(ctx.cov.get("coq_eval_ext_s", 0) + time.time() - t0, 1)
+    ctx.cov["glue_model_queries"] = dict(XKINDS)
+    return sorted(mism)
 
 
 # ------------------------------------------------------------------ run
@@ -769,6 +1312,7 @@ def evaluate(ctx, cases, broken, label, coq=True):
                 chunk = part[k:k + shard]
                 STRTAB.clear()
                 FTAB.clear()
+                SEQTAB.clear()
                 terms = [case_term(cases[i], obs[i]) for i in chunk]
                 jobs.append((chunk, "%s%d" % (nm, k // shard), IMPORTS + "\n" + strtab_defs(), terms))
 
@@ -813,6 +1357,123 @@ def run_hang(ctx):
     ctx.cov["threshold0_observation_note"] = "Taxonomy.LCA(seq, 0.0): the loop never exits (harness timeout = kind 'crash') - outside the property, observation only"
 
 
+# ------------------------------------------------------------------ round 3: the dump files as text (irregular but valid; malformed; missing)
+def dump_text(case):
+    n = "".join("%d\t|\t%d\t|\t%s\t|\t\t|\t0\t|\t1\t|\t1\t|\t0\t|\t0\t|\t0\t|\t0\t|\t0\t|\t\t|\n" % (t, p, r) for t, p, r in case["nodes"])
+    m = "".join(name_line(r) + "\n" for r in case["names"])
+    g = "".join("%d\t|\t%d\t|\n" % (o, w) for o, w in case["merged"])
+    return n, m, g
+
+
+def loader_cases(rng):
+    """(label, case, expectation): 'same' = the irregular text describes the same taxonomy, every answer must be the usual one;
+    'loud' = the dump cannot be read: the loader must fail (error, panic), never answer; 'same-or-loud' = text the NCBI layout
+    allows (it has no quoting; names of any length) or a row cut short: either every row is taken into account or the load fails -
+    never a taxonomy silently cut at that line"""
+    base = json.loads(json.dumps(CORPUS[0]))
+    base["seqs"] = base["seqs"][:3]
+    n, m, g = dump_text(base)
+    nl_ = n.splitlines(True)
+    out = []
+
+    def mk(label, nn, mm, gg, exp, **kw):
+        c = json.loads(json.dumps(base))
+        c["raw"] = [nn, mm, gg]
+        c["kind"] = "loader:" + label
+        c.update(kw)
+        out.append((label, c, exp))
+    mk("plain", n, m, g, "same")
+    mk("comment lines", "# nodes\n" + n + "# end\n", m, "# merged\n" + g, "same")
+    mk("crlf", n.replace("\n", "\r\n"), m.replace("\n", "\r\n"), g.replace("\n", "\r\n"), "same")
+    mk("blank lines in nodes and merged", nl_[0] + "\n" + "".join(nl_[1:]) + "\n", m, "\n" + g + "\n\n", "same")
+    mk("no final newline", n.rstrip("\n"), m.rstrip("\n"), g.rstrip("\n"), "same")
+    mk("blanks for tabs", n.replace("\t", " "), m, g.replace("\t", "  "), "same")
+    mk("no blank at all", n.replace("\t", ""), m, g.replace("\t", ""), "same")
+    mk("rows in reverse order", "".join(reversed(nl_)), m, g, "same")
+    mk("text in the other columns", n.replace("\t|\t\t|\t0", "\t|\tAB\t|\t9").replace("\t|\t\t|\n", "\t|\tcode compliant; specified\t|\n"), m, g, "same")
+    mk("empty merged", n, m, "", "same", merged=[])
+    for fn in ("nodes.dmp", "names.dmp", "merged.dmp"):
+        mk("missing " + fn, n, m, g, "loud", missing=fn)
+    row = "%s\t|\t%s\t|\tspecies\t|\t\t|\t0\t|\t1\t|\t1\t|\t0\t|\t0\t|\t0\t|\t0\t|\t0\t|\t\t|\n"
+    mk("taxid not a number in nodes", n + row % ("x12", "1"), m, g, "loud")
+    mk("parent not a number in nodes", row % ("12", "one") + n, m, g, "loud")
+    mk("taxid out of range in nodes", n + row % ("99999999999999999999", "1"), m, g, "loud")
+    mk("taxid not a number in names", n, m + "abc\t|\tname\t|\t\t|\tscientific name\t|\n", g, "loud")
+    mk("three fields in names", n, "1\t|\troot\t|\tscientific name\n" + m, g, "loud")
+    mk("blank line in names", n, m + "\n", g, "loud")
+    mk("old taxid not a number in merged", n, m, g + "old\t|\t7\t|\n", "loud")
+    mk("new taxid not a number in merged", n, m, "77\t|\tnew\t|\n" + g, "loud")
+    # (before the round-3 fixes the csv reader of nodes / merged stopped silently at the first line it could not parse, and the names
+    # were silently dropped from the first line longer than the 4096-byte read buffer on)
+    mk("quote in a nodes column", nl_[0] + nl_[1].replace("\t|\t\t|\n", "\t|\tsay \"hi\"\t|\n") + "".join(nl_[2:]), m, g, "same-or-loud")
+    mk("row with fewer columns in nodes", nl_[0] + "77\t|\t1\t|\tspecies\t|\n" + "".join(nl_[1:]), m, g, "same-or-loud", nodes=base["nodes"][:1] + [[77, 1, "species"]] + base["nodes"][1:], n=9)
+    gl = g.splitlines(True)
+    mk("quote in merged", n, m, gl[0] + "96\t|\t\"7\t|\n" + "".join(gl[1:]), "same-or-loud", merged=base["merged"][:1] + base["merged"][1:])
+    mk("row with more columns in merged", n, m, gl[0] + "96\t|\t7\t|\tx\t|\n" + "".join(gl[1:]), "same-or-loud", merged=base["merged"][:1] + [[96, 7]] + base["merged"][1:])
+    mk("names line longer than 4096 bytes", n, "1\t|\t" + "x" * 5000 + "\t|\t\t|\tsynonym\t|\n" + m, g, "same", names=[[1, "x" * 5000, "synonym"]] + base["names"])
+    fixed = len("1\t|\t" + "\t|\t\t|\tsynonym\t|")
+    for total in (4095, 4096, 4097, 8192, 8193, 12288 + rng.randrange(5000)):
+        nm = "y" * (total - fixed)
+        mk("names line of %d bytes" % total, n, m + "1\t|\t" + nm + "\t|\t\t|\tsynonym\t|\n" + "2\t|\tafter the long line\t|\t\t|\tsynonym\t|\n", g, "same",
+           names=base["names"] + [[1, nm, "synonym"], [2, "after the long line", "synonym"]], namesq=base["namesq"] + [[1, nm], [2, "after the long line"], [1, nm[:-1]]])
+    one = "1\t|\t" + "w" * (4096 - len("1\t|\t" + "\t|\t\t|\tscientific name\t|")) + "\t|\t\t|\tscientific name\t|"
+    mk("names.dmp = one line of exactly 4096 bytes without newline", n, one, g, "same", names=[[1, "w" * (4096 - len("1\t|\t" + "\t|\t\t|\tscientific name\t|")), "scientific name"]],
+       namesq=[[1, "w" * 10], [5, "taxon5"]], seqs=[])
+    mk("long names line without final newline", n, m + "8\t|\t" + "z" * 9000 + "\t|\t\t|\tsynonym\t|", g, "same",
+       names=base["names"] + [[8, "z" * 9000, "synonym"]], namesq=base["namesq"] + [[8, "z" * 9000]])
+    return out
+
+
+def run_loader(ctx, broken):
+    lc = loader_cases(ctx.rng)
+    cases = [c for _, c, _ in lc]
+    obs = ctx.vh_robust("c14", cases, timeout=120, one_timeout=20)
+    verdicts = {}
+    same = []
+    for (label, c, exp), o in zip(lc, obs):
+        k = o.get("kind")
+        if exp == "same":
+            bad = [("load", 0, o.get("err") or k, "ok")] if k != "ok" else compare(c, o, expected(c))
+            verdicts[label] = "same answers" if not bad else "DIFFERENT"
+            if bad:
+                what, j, got, want = bad[0]
+                ctx.violation("loader_%s" % label.replace(" ", "_"), dict(property="C14", kind="direct-oracle", what="dump text: %s: %s" % (label, what), implementation=got, expected=want,
+                                                                         n_disagreements=len(bad), case=c, expect=exp))
+            else:
+                same.append((c, o))
+        elif exp == "loud":
+            verdicts[label] = k
+            if k == "ok":
+                ctx.violation("loader_%s" % label.replace(" ", "_"), dict(property="C14", kind="direct-oracle", what="dump text: %s" % label,
+                                                                         implementation=dict(kind=k, len=o.get("len"), nalias=o.get("nalias")), expected="an error (the dump cannot be read)", case=c, expect=exp))
+        else:
+            bad = compare(c, o, expected(c)) if k == "ok" else []
+            verdicts[label] = k if k != "ok" else ("same answers" if not bad else "SILENTLY CUT (%s taxa, %s aliases loaded)" % (o.get("len"), o.get("nalias")))
+            if bad:
+                key = "loader-stops-silently:" + ("names" if "names" in label else "csv")
+                if ctx.kf_match(key):
+                    ctx.known(key, "dump text: %s: the loader stops reading at that line without any error" % label)
+                else:
+                    what, j, got, want = bad[0]
+                    ctx.violation("loader_%s" % label.replace(" ", "_"), dict(property="C14", kind="direct-oracle", what="dump text: %s: the rows after that line are silently ignored (%s)" % (label, what),
+                                                                             implementation=got, expected=want, loaded=dict(taxa=o.get("len"), aliases=o.get("nalias")), n_disagreements=len(bad), case=c, expect=exp))
+            elif k == "ok":
+                same.append((c, o))
+    ctx.cov["loader_text_cases"] = verdicts
+    # the irregular texts through the model as well (same rows => same term, the observations are the ones of the irregular files);
+    # the very long names are judged by the oracle only (a 16 KB literal per case costs seconds of parsing for nothing)
+    same = [(c, o) for c, o in same if all(len(r[1]) < 300 for r in c["names"])]
+    if same:
+        STRTAB.clear(); FTAB.clear(); SEQTAB.clear()
+        terms = [case_term(c, o) for c, o in same]
+        bad, err = ctx.correspond("loader", IMPORTS + "\n" + strtab_defs(), terms, shard=len(terms))
+        if bad is None:
+            broken.append(dict(kind="correspondence", detail=err))
+        elif bad and not ctx.violations:
+            broken.append(dict(kind="correspondence", name="corr:C14/loader-text", first_diverging_case=same[bad[0]][0], n_diverging=len(bad)))
+    return len(cases)
+
+
 def queries(c):
     return sum(len(c.get(k) or []) for k in ("pairs", "paths", "ranks", "sets", "resolve", "namesq", "namesm", "forms", "seqs")) + \
         sum(len(s.get("thr") or []) * (s.get("reps") or 1) for s in c["seqs"])
@@ -821,8 +1482,13 @@ def queries(c):
 def run(ctx, broken):
     cases, nex = gen_cases(ctx, ctx.quick)
     obs, mism, failing = evaluate(ctx, cases, broken, "main")
+    mism3 = evaluate_ext(ctx, [(c, o, None) for c, o in zip(cases, obs)], broken, "main")
+    ctx.cov["glue_model_mismatches"] = len(mism3)
+    if mism3 and not ctx.violations:
+        broken.append(dict(kind="correspondence", name="corr:C14/glue", first_diverging_case=cases[mism3[0]], implementation=obs[mism3[0]], n_diverging=len(mism3)))
     run_cycle(ctx)
     run_hang(ctx)
+    nload = run_loader(ctx, broken)
     run_cli(ctx, broken)
     ctx.cov["evaluations"] = sum(queries(c) for c in cases)
     ctx.cov["taxonomies"] = len(cases)
@@ -841,6 +1507,18 @@ def run(ctx, broken):
     for c in cases:
         k = c["kind"] if c["kind"].startswith("all") or c["kind"] == "corpus" else "%s/n<=%d" % (c["kind"], 10 ** len(str(c["n"])))
         dist[k] = dist.get(k, 0) + 1
+    hk = {}
+    for c in cases:
+        for op in c.get("hist") or []:
+            k = "hist:" + op["op"] + (":persistent" if op.get("on") else "")
+            hk[k] = hk.get(k, 0) + 1
+    dist["histories"] = sum(1 for c in cases if c.get("hist"))
+    dist["second_pass"] = sum(1 for c in cases if c.get("again"))
+    dist["ignore_or_restrict_3_clades"] = sum(1 for c in cases for q in c["seqs"] if len(q.get("ignore") or []) >= 3 or len(q.get("restrict") or []) >= 3)
+    dist["names_rows_for_non_nodes"] = sum(1 for c in cases if any(r[0] not in {x[0] for x in c["nodes"]} for r in c["names"]))
+    dist["merged_taxid_outside_tree"] = sum(1 for c in cases for q in c["seqs"] if q.get("merged") and any(int(k) in (c.get("garbage") or []) for k in q["merged"]))
+    dist["dump_text_cases"] = nload
+    dist.update(hk)
     ctx.cov["distribution"] = dist
     ctx.cov["max_nodes"] = max(c["n"] for c in cases)
     ctx.samples = [dict(nodes=c["nodes"][:8], merged=c["merged"], pairs=list(zip(c["pairs"][:5], (o.get("pairs") or [])[:5]))) for c, o in list(zip(cases, obs))[:2] + list(zip(cases, obs))[-40:-38]]
@@ -855,7 +1533,7 @@ def run(ctx, broken):
         ctx.cov["note"] = "model and implementation diverge on %d taxonomies (violations reported by the direct oracle)" % len(mism)
 
 
-# ------------------------------------------------------------------ CLI level (oracle only)
+# ------------------------------------------------------------------ CLI level (oracle; the records and option values are part of the replay)
 def run_cli(ctx, broken):
     bind, err = ctx.build_cmds(["obigrep", "obiannotate"])
     if bind is None:
@@ -864,6 +1542,8 @@ def run_cli(ctx, broken):
     rng = ctx.rng
     ntax = 3 if ctx.quick else 40
     nrun = 0
+    kinds = {}
+    xcli = []
     for k in range(ntax):
         kind = rng.choice(["rrt", "deep", "caterpillar"])
         case = mk_case(rng, shape(rng, rng.randrange(6, 60), kind), kind, 10, with_seqs=False, plain=True)
@@ -874,84 +1554,311 @@ def run_cli(ctx, broken):
         for j in range(40):
             tx = rng.choice(ids + olds + [987654321]) if rng.random() < 0.95 else None
             keys = rng.sample(ids, min(len(ids), rng.randrange(1, 4)))
-            recs.append(dict(id="s%d" % j, taxid=tx, merged={str(t): rng.randrange(1, 5) for t in keys}))
-        opts = dict(clade=rng.choice(ids + olds), clade2=rng.choice(ids), rank=rng.choice(sorted(T.ranklist)))
-        nrun += cli_check(ctx, bind, case, recs, opts, "cli_%d" % k)
+            r = dict(id="s%d" % j, taxid=tx, merged={str(t): rng.randrange(1, 5) for t in keys})
+            q = rng.random()
+            if q < 0.7:                                              # round 3: the attribute read by `-r <attribute name>`
+                c = rng.choice(ids + olds + [987654321])
+                r["clade"] = rng.choice(["%d", "TX:%d", "taxon [TX:%d]", "%d", "NA", "TX:"]).replace("%d", str(c))
+            recs.append(r)
+        # round 3: ignored clades that are nested (inner below outer) and disjoint (a taxon outside the outer clade)
+        deep = max(ids, key=lambda t: len(T.anc(t)))
+        an = T.anc(deep)
+        outer = an[min(len(an) - 1, max(1, len(an) // 2))]
+        outside = [t for t in ids if outer not in T.anc(t) and t not in an] or [deep]
+        opts = dict(clade=rng.choice(ids + olds), clade2=rng.choice(ids), rank=rng.choice(sorted(T.ranklist)),
+                    ignore3=[an[0], outer, rng.choice(outside)], ranks2=rng.sample(sorted(T.ranklist), min(2, len(T.ranklist))),
+                    lcaerr=rng.choice([0.25, 0.4, 0.5]), lcaslot=rng.choice(["x", "taxid", "mytaxid", "lca"]), order=rng.randrange(1000))
+        xg = []
+        nrun += cli_check(ctx, bind, case, recs, opts, "cli_%d" % k, kinds, xg)
+        xcli.append((dict(case, hist=None), dict(kind="ok"), grep_queries(recs, xg)))
     ctx.cov["cli_runs"] = nrun
+    ctx.cov["cli_kinds"] = kinds
+    # the selections the commands made, against the model of the composition (Model3.grep_sel)
+    mism = evaluate_ext(ctx, xcli, broken, "cli")
+    ctx.cov["cli_model_mismatches"] = len(mism)
+    if mism and not ctx.violations:
+        broken.append(dict(kind="correspondence", name="corr:C14/obigrep-selection", first_diverging_case=xcli[mism[0]][0], n_diverging=len(mism)))
 
 
-def cli_check(ctx, bind, case, recs, opts, name):
-    """obigrep -r/-i/--require-rank and obiannotate --with-taxon-at-rank/--add-lca-in on a synthetic dump, against the oracle"""
+def grep_queries(recs, xg):
+    def f(rcode):
+        sdefs = []
+        for r in recs:
+            a = {}
+            if r["taxid"] is not None:
+                a["taxid"] = r["taxid"]
+            a["merged_taxid"] = r["merged"]
+            if r.get("clade") is not None:
+                a["clade"] = r["clade"]
+            sdefs.append(seq_term3(a))
+        res = []
+        for (rq, rs, ig, inv), verdicts in xg:
+            g = "(mkgopts %s [%s] %s %s)" % (nl([rcode(k) for k in rq]), "; ".join("RId %d" % int(x) if re.fullmatch(r"\d+", x) else "RSlot" for x in rs), nl(ig), "true" if inv else "false")
+            res.append("XGrep %s [%s]" % (g, "; ".join("(%s,(%d)%%Z)" % (sd, v) for sd, v in zip(sdefs, verdicts))))
+        return res
+    return f
+
+
+def fasta_of(recs):
+    out = []
+    for r in recs:
+        ann = dict(merged_taxid=r["merged"])
+        if r["taxid"] is not None:
+            ann["taxid"] = r["taxid"]
+        if r.get("clade") is not None:
+            ann["clade"] = r["clade"]
+        out.append(">%s %s\nacgtacgt\n" % (r["id"], json.dumps(ann)))
+    return out
+
+
+def parse_out(out):
+    """records of a fasta output: [(id, annotations | None)]"""
+    res = []
+    for l in out.splitlines():
+        if l.startswith(">"):
+            sid = l[1:].split()[0]
+            try:
+                res.append((sid, json.loads(l[l.index("{"):]) if "{" in l else {}))
+            except Exception:
+                res.append((sid, None))
+    return res
+
+
+def gopts_of(args):
+    """the taxonomy selection options of an obigrep command line: (require, restrict, ignore, invert)"""
+    rq, rs, ig, inv = [], [], [], False
+    i = 0
+    while i < len(args):
+        a = args[i]
+        if a in ("-r", "--restrict-to-taxon"):
+            rs.append(args[i + 1]); i += 2
+        elif a in ("-i", "--ignore-taxon"):
+            ig.append(int(args[i + 1])); i += 2
+        elif a == "--require-rank":
+            rq.append(args[i + 1]); i += 2
+        elif a in ("-v", "--inverse-match"):
+            inv = True; i += 1
+        elif a in ("--max-cpu", "--batch-size", "--save-discarded", "-t"):
+            i += 2
+        else:
+            i += 1
+    return rq, rs, ig, inv
+
+
+def cli_check(ctx, bind, case, recs, opts, name, kinds=None, xg=None):
+    """obigrep -r/-i/--require-rank (several values, attribute form, -v, --save-discarded, stdin, several files, one cpu, --no-order,
+    failures) and obiannotate --with-taxon-at-rank/--add-lca-in/--lca-error/--taxonomic-path/--taxonomic-rank/--scientific-name
+    (alone and restricted by -r) on a synthetic dump, against the oracle"""
     T = Tax(case)
+    kinds = kinds if kinds is not None else {}
     clade, clade2, rank = opts["clade"], opts["clade2"], opts["rank"]
     nrun = 0
+    obigrep, obiannotate = os.path.join(bind, "obigrep"), os.path.join(bind, "obiannotate")
     with tempfile.TemporaryDirectory(prefix="c14cli") as d:
         write_dump(d, case)
         fa = os.path.join(d, "in.fasta")
+        lines = fasta_of(recs)
         with open(fa, "w") as f:
-            for r in recs:
-                ann = dict(merged_taxid=r["merged"])
-                if r["taxid"] is not None:
-                    ann["taxid"] = r["taxid"]
-                f.write(">%s %s\nacgtacgt\n" % (r["id"], json.dumps(ann)))
+            f.write("".join(lines))
+        half = len(lines) // 2
+        fa1, fa2 = os.path.join(d, "part1.fasta"), os.path.join(d, "part2.fasta")
+        open(fa1, "w").write("".join(lines[:half]))
+        open(fa2, "w").write("".join(lines[half:]))
 
         def known(r):
             return T.resolve(r["taxid"] if r["taxid"] is not None else 1)
 
         def inc(r, c):
             return known(r) is not None and T.resolve(c) in T.anc(known(r))
-        runs = [(["-r", str(clade)], lambda r: inc(r, clade)),
-                (["-r", str(clade), "-r", str(clade2)], lambda r: inc(r, clade) or inc(r, clade2)),
-                (["-i", str(clade2)], lambda r: not inc(r, clade2)),
-                (["-i", str(clade2), "-i", str(clade)], lambda r: not (inc(r, clade) or inc(r, clade2))),
-                (["--require-rank", rank], lambda r: known(r) is not None and T.at_rank(known(r), rank) is not None),
-                (["-r", str(clade), "--require-rank", rank], lambda r: inc(r, clade) and T.at_rank(known(r), rank) is not None)]
-        for args, pred in runs:
-            rc, out, err2, dt = sh_cmd([os.path.join(bind, "obigrep"), "-t", d] + args + [fa])
-            got = [l[1:].split()[0] for l in out.splitlines() if l.startswith(">")]
+
+        def inslot(r):
+            if r.get("clade") is None:
+                return False
+            c = slot_id(dict(slotstr=r["clade"]))
+            return c is not None and T.resolve(c) is not None and inc(r, c)
+
+        def hasrank(r, k):
+            return known(r) is not None and T.at_rank(known(r), k) is not None
+
+        def violation(tag, **kw):
+            ctx.violation("%s_%s" % (name, tag), dict(property="C14", kind="cli-oracle", case=case, records=recs, opts=opts, **kw))
+        ig3 = opts.get("ignore3") or [clade2, clade]
+        rk2 = opts.get("ranks2") or [rank]
+        discarded = os.path.join(d, "discarded.fasta")
+        # (label, arguments before the input, input mode, predicate, unordered)
+        runs = [("r", ["-r", str(clade)], "file", lambda r: inc(r, clade), False),
+                ("r2", ["-r", str(clade), "-r", str(clade2)], "file", lambda r: inc(r, clade) or inc(r, clade2), False),
+                ("i", ["-i", str(clade2)], "file", lambda r: not inc(r, clade2), False),
+                ("i2", ["-i", str(clade2), "-i", str(clade)], "file", lambda r: not (inc(r, clade) or inc(r, clade2)), False),
+                ("i3", sum((["-i", str(c)] for c in ig3), []), "file", lambda r: not any(inc(r, c) for c in ig3), False),
+                ("i3rev", sum((["--ignore-taxon", str(c)] for c in reversed(ig3)), []), "stdin", lambda r: not any(inc(r, c) for c in ig3), False),
+                ("rank", ["--require-rank", rank], "file", lambda r: hasrank(r, rank), False),
+                ("rank2", sum((["--require-rank", k] for k in rk2), []), "two", lambda r: all(hasrank(r, k) for k in rk2), False),
+                ("r+rank", ["-r", str(clade), "--require-rank", rank], "file", lambda r: inc(r, clade) and hasrank(r, rank), False),
+                ("r+i+rank", ["-i", str(ig3[0]), "--restrict-to-taxon", str(ig3[1]), "--require-rank", rk2[-1]], "file",
+                 lambda r: inc(r, ig3[1]) and not inc(r, ig3[0]) and hasrank(r, rk2[-1]), False),
+                ("rslot", ["-r", "clade"], "file", inslot, False),
+                ("rslot+r", ["-r", str(clade2), "-r", "clade"], "stdin", lambda r: inslot(r) or inc(r, clade2), False),
+                ("v", ["-v", "-r", str(clade), "-i", str(clade2)], "file", lambda r: not (inc(r, clade) and not inc(r, clade2)), False),
+                ("onecpu", ["--force-one-cpu", "-i", str(clade)], "two", lambda r: not inc(r, clade), False),
+                ("maxcpu1", ["--max-cpu", "1", "--batch-size", "3", "-r", str(clade2)], "file", lambda r: inc(r, clade2), False),
+                ("noorder", ["--no-order", "--batch-size", "2", "-r", str(clade2)], "two", lambda r: inc(r, clade2), True),
+                ("discard", ["--save-discarded", discarded, "-r", str(clade)], "file", lambda r: inc(r, clade), False)]
+        for label, args, mode, pred, unordered in runs:
+            argv = [obigrep, "-t", d] + args
+            if mode == "file":
+                rc, out, err2, dt = sh_cmd(argv + [fa])
+            elif mode == "two":
+                rc, out, err2, dt = sh_cmd(argv + [fa1, fa2])
+            else:
+                rc, out, err2, dt = sh_cmd(argv, stdin=open(fa, "rb").read())
+            got = [sid for sid, _ in parse_out(out)]
             exp = [r["id"] for r in recs if pred(r)]
             nrun += 1
-            if rc != 0 or got != exp:
-                ctx.violation("%s_obigrep_%d" % (name, nrun), dict(property="C14", kind="cli-oracle", cmd="obigrep -t DIR " + " ".join(args), rc=rc, selected=got, expected=exp,
-                                                                 case=case, records=recs, opts=opts, stderr=err2[-500:]))
+            kinds["obigrep " + label] = kinds.get("obigrep " + label, 0) + 1
+            if xg is not None:
+                xg.append((gopts_of(args), [(-3 if rc != 0 else int(r["id"] in got)) for r in recs]))
+            if rc != 0 or (sorted(got) != sorted(exp) if unordered else got != exp):
+                violation("obigrep_%s" % label, cmd="obigrep -t DIR " + " ".join(args) + " (%s)" % mode, rc=rc, selected=got, expected=exp, stderr=err2[-500:])
+            if label == "discard":
+                gotd = [sid for sid, _ in parse_out(open(discarded).read())] if os.path.exists(discarded) else None
+                expd = [r["id"] for r in recs if not pred(r)]
+                if gotd is None or sorted(gotd) != sorted(expd):
+                    violation("obigrep_discarded", cmd="obigrep -t DIR " + " ".join(args), discarded=gotd, expected=expd, stderr=err2[-500:])
+        # failures must be loud: no taxonomy given, unreadable dump, unknown clade, unknown rank
+        fails = [("notax", [obigrep, "-r", str(clade), fa]), ("baddir", [obigrep, "-t", os.path.join(d, "nowhere"), "-r", str(clade), fa]),
+                 ("badclade", [obigrep, "-t", d, "-r", str(clade), "-r", "987654321", fa]), ("badignore", [obigrep, "-t", d, "-i", "987654321", fa]),
+                 ("badrank", [obigrep, "-t", d, "--require-rank", rank, "--require-rank", "no such rank", fa]),
+                 ("annot_badrank", [obiannotate, "-t", d, "--with-taxon-at-rank", "no such rank", fa])]
+        for label, argv in fails[:(6 if opts.get("order", 0) % 2 == 0 else 3)]:
+            rc, out, err2, dt = sh_cmd(argv)
+            nrun += 1
+            kinds["fail " + label] = kinds.get("fail " + label, 0) + 1
+            if xg is not None and label in ("badclade", "badignore", "badrank"):
+                got = [sid for sid, _ in parse_out(out)]
+                xg.append((gopts_of(argv[1:-1]), [(-3 if rc != 0 else int(r["id"] in got)) for r in recs]))
+            # (obiannotate --with-taxon-at-rank does not validate the rank: every record gets -1 / NA; accepted as is)
+            if label == "annot_badrank":
+                got = parse_out(out)
+                if rc != 0 or any(a is None or a.get("no such rank_taxid", -1) != -1 for _, a in got):
+                    violation("fail_" + label, cmd=" ".join(argv[1:]), rc=rc, what="a rank nobody carries must give -1 or no annotation", stderr=err2[-300:])
+            elif rc == 0:
+                violation("fail_" + label, cmd=" ".join(argv[1:]).replace(d, "DIR"), rc=rc, what="exit 0 although the selection cannot be evaluated", n_records_printed=len(parse_out(out)), stderr=err2[-300:])
+
         # obiannotate: taxon at rank and LCA of the merged taxids (zero error)
-        rc, out, err2, dt = sh_cmd([os.path.join(bind, "obiannotate"), "-t", d, "--with-taxon-at-rank", rank, "--add-lca-in", "x", fa])
-        nrun += 1
-        got = {}
-        for l in out.splitlines():
-            if l.startswith(">"):
-                sid = l[1:].split()[0]
-                try:
-                    got[sid] = json.loads(l[l.index("{"):])
-                except Exception:
-                    got[sid] = None
-        bad = None
-        if rc != 0:
-            bad = "exit %d" % rc
-        for r in recs:
-            a = got.get(r["id"])
-            if a is None:
-                bad = bad or "record %s missing" % r["id"]
-                continue
-            x = known(r)
-            want = None if x is None else (T.at_rank(x, rank) if T.at_rank(x, rank) is not None else -1)
-            if a.get(rank + "_taxid") != want:
-                bad = bad or "%s: %s_taxid=%r expected %r" % (r["id"], rank, a.get(rank + "_taxid"), want)
+        def lca_of(r):
             l = None
             for t in r["merged"]:
                 l = int(t) if l is None else T.lca(l, int(t))
+            return l
+
+        def check_annot(tag, args, expect, inputs=None, stdin=None):
+            nonlocal nrun
+            rc, out, err2, dt = sh_cmd([obiannotate, "-t", d] + args + (inputs if inputs is not None else [fa]), stdin=stdin)
+            nrun += 1
+            kinds["obiannotate " + tag] = kinds.get("obiannotate " + tag, 0) + 1
+            got = parse_out(out)
+            bad = None
+            if rc != 0:
+                bad = "exit %d" % rc
+            elif [sid for sid, _ in got] != [r["id"] for r in recs]:
+                bad = "records %s instead of all the records in input order" % [sid for sid, _ in got][:50]
+            else:
+                for r, (sid, a) in zip(recs, got):
+                    if a is None:
+                        bad = bad or "record %s: unreadable annotations" % sid
+                        continue
+                    e = expect(r, a)
+                    if e:
+                        bad = bad or "%s: %s" % (sid, e)
+            if bad:
+                violation("obiannotate_" + tag, cmd="obiannotate -t DIR " + " ".join(args), what=bad, stderr=err2[-500:])
+
+        def base_ann(r):
+            a = dict(merged_taxid=r["merged"])
+            if r["taxid"] is not None:
+                a["taxid"] = r["taxid"]
+            if r.get("clade") is not None:
+                a["clade"] = r["clade"]
+            return a
+
+        def exp_rank_lca(r, a):
+            x = known(r)
+            want = None if x is None else (T.at_rank(x, rank) if T.at_rank(x, rank) is not None else -1)
+            if a.get(rank + "_taxid") != want:
+                return "%s_taxid=%r expected %r" % (rank, a.get(rank + "_taxid"), want)
+            l = lca_of(r)
             if a.get("x_taxid") != l or a.get("x_error") not in (0, 0.0):
-                bad = bad or "%s: x_taxid=%r x_error=%r expected %r, 0" % (r["id"], a.get("x_taxid"), a.get("x_error"), l)
-        if bad:
-            ctx.violation("%s_obiannotate" % name, dict(property="C14", kind="cli-oracle", cmd="obiannotate -t DIR --with-taxon-at-rank %s --add-lca-in x" % rank, what=bad,
-                                                        case=case, records=recs, opts=opts, stderr=err2[-500:]))
+                return "x_taxid=%r x_error=%r expected %r, 0" % (a.get("x_taxid"), a.get("x_error"), l)
+        check_annot("rank+lca", ["--with-taxon-at-rank", rank, "--add-lca-in", "x"], exp_rank_lca)
+
+        def exact(upd_of):
+            """the output annotations are exactly the input ones + the expected new ones"""
+            def f(r, a):
+                want = base_ann(r)
+                u = upd_of(r)
+                if u is None:
+                    return None
+                want.update(u)
+                a = dict(a)
+                for kk in SCI_KEYS:                                   # either spelling of the scientific-name attribute
+                    if kk in a and SCI_KEYS[0] in want and kk != SCI_KEYS[0]:
+                        a[SCI_KEYS[0]] = a.pop(kk)
+                if a != want:
+                    diff = {kk: (a.get(kk), want.get(kk)) for kk in set(a) | set(want) if a.get(kk) != want.get(kk)}
+                    return "annotations differ (got, expected): %r" % diff
+            return f
+        # several ranks at once, on two files
+        check_annot("ranks2", sum((["--with-taxon-at-rank", k] for k in rk2), []), exact(lambda r: rank_updates(T, r["taxid"] if r["taxid"] is not None else 1, rk2)), inputs=[fa1, fa2])
+        # annotation restricted to a clade: the other records pass through untouched
+        check_annot("r+rank", ["-r", str(clade), "--with-taxon-at-rank", rank],
+                    exact(lambda r: rank_updates(T, r["taxid"] if r["taxid"] is not None else 1, [rank]) if inc(r, clade) else {}))
+        # path / rank / scientific name of the taxon: only records whose taxid is known may be given (an unknown one is fatal)
+        kn = [r for r in recs if known(r) is not None]
+        fak = os.path.join(d, "known.fasta")
+        open(fak, "w").write("".join(fasta_of(kn)))
+        allrecs = recs
+        recs = kn
+
+        def exp_names(r):
+            x = known(r)
+            return dict(taxonomic_path=path_string(T, x), taxonomic_rank=T.nodes[x][1], scientific_name=T.sci.get(x, ""))
+        check_annot("path+rank+name", ["--taxonomic-path", "--taxonomic-rank", "--scientific-name"], exact(exp_names), inputs=[fak])
+        check_annot("path.stdin.onecpu", ["--force-one-cpu", "--taxonomic-path"], exact(lambda r: dict(taxonomic_path=exp_names(r)["taxonomic_path"])), inputs=[],
+                    stdin=open(fak, "rb").read())
+        # weighted LCA with a tolerated error, in a slot whose name may contain "taxid"
+        lcaerr, slot = opts.get("lcaerr", 0.4), opts.get("lcaslot", "x")
+        thr = 1 - lcaerr                                               # CLILCAThreshold
+        kt, kn_, ke = lca_keys(slot)
+
+        def exp_wlca(r, a):
+            dist = {}
+            for t, w in r["merged"].items():
+                dist[int(t)] = dist.get(int(t), 0) + w
+            for t, b in descent(T, dist, thr):
+                rans = struct.unpack(">d", struct.pack(">Q", b))[0]
+                want = base_ann(r)
+                want.update({kt: t, kn_: T.sci.get(t, ""), ke: math.floor((1 - rans) * 1000 + 0.5) / 1000})
+                if {kk: v for kk, v in a.items() if kk != ke} == {kk: v for kk, v in want.items() if kk != ke} and \
+                   isinstance(a.get(ke), (int, float)) and abs(a[ke] - want[ke]) < 1e-12:
+                    return None
+            return "annotations %r are none of the outcomes the tree allows at threshold %r: %r" % (a, thr, sorted(descent(T, dist, thr)))
+        check_annot("wlca", ["--add-lca-in", slot, "--lca-error", repr(lcaerr)], exp_wlca, inputs=[fak])
+        recs = allrecs
+        if len(kn) < len(recs) and opts.get("order", 0) % 2 == 1:
+            rc, out, err2, dt = sh_cmd([obiannotate, "-t", d, "--taxonomic-path", fa])
+            nrun += 1
+            kinds["fail annot_unknown_taxid"] = kinds.get("fail annot_unknown_taxid", 0) + 1
+            if rc == 0:
+                violation("fail_annot_unknown", cmd="obiannotate -t DIR --taxonomic-path", rc=rc, what="exit 0 although a record carries a taxid the taxonomy does not know", stderr=err2[-300:])
     return nrun
 
 
-def sh_cmd(argv, timeout=60):
+def sh_cmd(argv, timeout=60, stdin=None):
     t0 = time.time()
     try:
-        p = subprocess.run(argv, capture_output=True, timeout=timeout)
+        p = subprocess.run(argv, capture_output=True, timeout=timeout, input=stdin) if stdin is not None else \
+            subprocess.run(argv, capture_output=True, timeout=timeout, stdin=subprocess.DEVNULL)
         return p.returncode, p.stdout.decode("utf8", "replace"), p.stderr.decode("utf8", "replace"), time.time() - t0
     except subprocess.TimeoutExpired:
         return 124, "", "TIMEOUT", time.time() - t0
@@ -980,6 +1887,17 @@ def replay(ctx, rp):
         n0 = len(ctx.violations)
         cli_check(ctx, bind, c, rp["records"], rp["opts"], "replay_cli")
         print("replay CLI:", "still failing" if len(ctx.violations) > n0 else "passes now")
+        return
+    if rp.get("expect"):
+        o = ctx.vh_robust("c14", [c], timeout=60, one_timeout=20)[0]
+        k = o.get("kind")
+        bad = compare(c, o, expected(c)) if k == "ok" else []
+        if rp["expect"] == "loud":
+            print("replay dump text:", "still failing (loaded without any error)" if k == "ok" else "passes now (%s)" % k)
+        elif rp["expect"] == "same":
+            print("replay dump text:", "passes now" if k == "ok" and not bad else "still failing (%s, %s)" % (k, bad[:2]))
+        else:
+            print("replay dump text:", "passes now (%s)" % k if not bad else "still failing: silently cut, %s taxa loaded, %s" % (o.get("len"), bad[:2]))
         return
     obs, mism, failing = evaluate(ctx, [c], [], "replay")
     bad = compare(c, obs[0], expected(c)) if obs[0].get("kind") != "crash" else [("crash",)]
